@@ -519,7 +519,7 @@ namespace vf
     if(have_fail)
     {
       // confirm 3x
-      int nfail = 0; for(int k = 0; k < 3; ++k) { Result r = run_case(*tg, fail_tape, fail_size, excluded); if(r.verdict == "fail" && sym_key(r) == fail_key) ++nfail; }
+      int nfail = 0; for(int k = 0; k < 3; ++k) { Result r = run_case(*tg, fail_tape, fail_size, excluded); if(r.verdict == "fail" && sym_key(r) == fail_key) ++nfail; else fprintf(stderr, "[vf] confirm %d: verdict=%s key=%s (expected %s) sym=%s\n", k, r.verdict.c_str(), sym_key(r).c_str(), fail_key.c_str(), r.sym.c_str()); }
       J c = case_json(tg->name, fail_size, fail_tape, fail_res);
       char nm[64]; snprintf(nm, sizeof nm, "%016llx", (unsigned long long)fnv64(c.str()));
       std::string path = replay_dir + "/" + tg->name + "-" + nm + ".json";
